@@ -47,16 +47,35 @@ class SArr(Model):
         return SArr(len(items), fn, kind=kind)
 
     @staticmethod
-    def symbolic(ctx, name, length, sort=R, kind='ndarray'):
+    def symbolic(ctx, name, length, sort=R, kind='ndarray', where=None):
+        """A symbolic array.  `where(v)` is a per-element precondition: it is instantiated for every
+        index term at which an element is read (instantiation by use, no quantifier in the path condition)."""
         f = z3.Function(name, Z, sort)
         ctx.named['array:' + name] = (f, length)
-        return SArr(length, lambda k: f(to_z3(k)), kind=kind)
+
+        def fn(k):
+            kz = to_z3(k)
+            v = f(kz)
+            if where is not None:
+                ctx.axiom(z3.Implies(z3.And(kz >= 0, kz < to_z3(length)), where(v)))
+            return v
+        return SArr(length, fn, kind=kind)
+
+    def snapshot(self):
+        """The array's content *now* (later in-place updates of the original are not seen)."""
+        return SArr(self.length, self.fn, kind=self.kind, scalar_like=self.scalar_like, dtype=self.dtype)
 
     def as_kind(self, kind):
         return SArr(self.length, self.fn, kind=kind, dtype=self.dtype)
 
     def at(self, k):
-        return self.fn(k)
+        # memoised per index term: element functions are pure (and may be expensive: each
+        # evaluation can ask the solver about definedness)
+        memo = self.__dict__.setdefault('_memo', {})
+        key = (id(self.fn), k if isinstance(k, int) else ('z', k.get_id()))
+        if key not in memo:
+            memo[key] = (self.fn(k), k)      # keep k alive so that its id is not reused
+        return memo[key][0]
 
     def map(self, f):
         g = self.fn
@@ -122,7 +141,10 @@ class SArr(Model):
         return SArr(ln, lambda k: g(_add(k, lo)), kind=self.kind)
 
     def mask_or_fancy(self, I, idx):
-        raise Unsupported('boolean-mask / fancy indexing yields an array of data-dependent length')
+        # a[mask]: a view of the elements where mask holds (its length is data dependent, so it
+        # stays attached to its mask: element-wise results can only be assigned back through the
+        # same mask, which is how the verified code uses it)
+        return MaskedView(self, idx)
 
     def py_setitem(self, I, idx, val):
         old = self.fn
@@ -140,6 +162,23 @@ class SArr(Model):
             return
         if isinstance(idx, SArr):       # boolean mask assignment  a[mask] = v
             m = idx
+            if isinstance(val, MaskedView):
+                if val.mask is not m and not val.same_mask(m):
+                    raise Unsupported('mask assignment from a view taken through a different mask')
+                v = val
+
+                def fn(k):
+                    c = _as_bool(m.at(k))
+                    if isinstance(c, bool):
+                        return v.at(k) if c else old(k)
+                    # the masked element is only evaluated where the mask holds (lazily, under
+                    # that assumption): this is what keeps log10 of a masked-out zero from counting
+                    ok, x = I.try_pure(lambda: v.at(k), assuming=c)
+                    if not ok:
+                        raise Unsupported('masked element expression is not total under its mask')
+                    return _ite(c, x, old(k))
+                self.fn = fn
+                return
             if isinstance(val, SArr):
                 raise Unsupported('mask assignment from an array')
             self.fn = lambda k: _ite(_as_bool(m.at(k)), val, old(k))
@@ -195,6 +234,39 @@ class SArr(Model):
         raise Unsupported(f'ndarray.{name}')
 
 
+class MaskedView(SArr):
+    """a[mask] -- elements of `base` at the positions where `mask` holds (position-wise access)."""
+
+    def __init__(self, base, mask, fn=None):
+        self.base, self.mask = base, mask
+        super().__init__(base.length, fn or base.fn, kind='ndarray')
+
+    def same_mask(self, m):
+        return self.mask is m
+
+    def map(self, f):
+        g = self.fn
+        return MaskedView(self.base, self.mask, lambda k: f(g(k)))
+
+    def py_binop(self, I, op, other, reflected):
+        g = self.fn
+        if isinstance(other, MaskedView):
+            if other.mask is not self.mask:
+                raise Unsupported('operation on views through different masks')
+            o = other.fn
+            if reflected:
+                return MaskedView(self.base, self.mask, lambda k: I.binop(op, o(k), g(k)))
+            return MaskedView(self.base, self.mask, lambda k: I.binop(op, g(k), o(k)))
+        if isinstance(other, SArr):
+            raise Unsupported('masked view combined with a full array')
+        if reflected:
+            return MaskedView(self.base, self.mask, lambda k: I.binop(op, other, g(k)))
+        return MaskedView(self.base, self.mask, lambda k: I.binop(op, g(k), other))
+
+    def py_len(self, I):
+        raise Unsupported('length of a masked view')
+
+
 def _ite(c, a, b):
     if isinstance(c, bool):
         return a if c else b
@@ -214,7 +286,20 @@ def _ite(c, a, b):
         return z3.If(c2, za, zb)
     if a is None and b is None:
         return None
+    from ..values import EnumMember, SymEnum, NPStr
+    ea, eb = _enum_ord(a), _enum_ord(b)
+    if ea is not None and eb is not None and ea[0] is eb[0]:
+        return SymEnum(ea[0], z3.If(c2, ea[1], eb[1]))
     raise Unsupported(f'conditional element of non-scalar type ({type(a).__name__}/{type(b).__name__})')
+
+
+def _enum_ord(v):
+    from ..values import EnumMember, SymEnum
+    if isinstance(v, EnumMember):
+        return v.cls, z3.IntVal(v.index)
+    if isinstance(v, SymEnum):
+        return v.cls, v.ord
+    return None
 
 
 def _as_bool(v):
@@ -280,14 +365,27 @@ def _elem(x, k):
     return x
 
 
+def _snap(x):
+    return x.snapshot() if isinstance(x, SArr) and not isinstance(x, MaskedView) else x
+
+
 def elementwise(I, op, a, b):
+    a, b = _snap(a), _snap(b)
+    if isinstance(a, MaskedView):
+        return a.py_binop(I, op, b, False)
+    if isinstance(b, MaskedView):
+        return b.py_binop(I, op, a, True)
     n = broadcast_len(I, a, b)
     # definedness of division is checked for a generic index (forall k): fork on exists-bad
     if op in ('Div', 'FloorDiv', 'Mod'):
         k = I.ctx.fresh('k', Z)
         I.ctx.assume(z3.And(k >= 0, k < to_z3(n)))
         d = _elem(b, k)
-        if is_sym(d):
+        cur = I.hooks.get('cur_func')
+        if is_sym(d) and cur in I.hooks.get('assume_defined', {}):
+            # the contract assumes this function's array divisions are defined on its input range
+            I.ctx.notes.append(f'array division in {cur} assumed defined: ' + I.hooks['assume_defined'][cur])
+        elif is_sym(d):
             if I.ctx.branch(to_z3(d) == 0):
                 I.raise_('NonFiniteResult', 'array division by zero')
             else:
@@ -309,6 +407,22 @@ def elementwise(I, op, a, b):
             return I.concrete_binop(op, x, y)
         return SArr(n, fn)
 
+    if op == 'Pow':
+        # definedness of a real power is checked once, for a generic index; elements are then
+        # computed without further case splits
+        k = I.ctx.fresh('k', Z)
+        I.ctx.assume(z3.And(k >= 0, k < to_z3(n)))
+        I.binop('Pow', _elem(a, k), _elem(b, k))
+        from . import mathfn
+
+        def fn(k2):
+            mathfn.UNCHECKED[0] += 1
+            try:
+                return I.binop(op, _elem(a, k2), _elem(b, k2))
+            finally:
+                mathfn.UNCHECKED[0] -= 1
+        return SArr(n, fn)
+
     def fn(k2):
         return I.binop(op, _elem(a, k2), _elem(b, k2))
     kind = 'ndarray'
@@ -316,6 +430,7 @@ def elementwise(I, op, a, b):
 
 
 def elementwise_cmp(I, op, a, b):
+    a, b = _snap(a), _snap(b)
     n = broadcast_len(I, a, b)
     return SArr(n, lambda k: I.compare(op, _elem(a, k), _elem(b, k)))
 
